@@ -105,19 +105,17 @@ Proof.
     { destruct (v_hash ca =? v_hash old) eqn:E.
       - apply vh_eqb_spec. apply truthful_eq with T; auto. lia.
       - destruct (vh_eqb ca old) eqn:E2; auto. apply vh_eqb_spec in E2. subst. lia. }
-    rewrite Heq.
-    set (c1 := if v_hash ca =? v_hash old then c else c_blocks_disconnected false c ca).
-    assert (Hc1 : Forall (truthful T) c1).
-    { unfold c1. destruct (v_hash ca =? v_hash old); auto. apply c_blocks_disconnected_truthful; auto. }
-    replace (if v_hash ca =? v_hash old then (c, []) else disconnect_blocks false c ca)
-      with (c1, disc_part ca old)
-      by (unfold c1, disc_part, disconnect_blocks; destruct (v_hash ca =? v_hash old); reflexivity).
-    destruct (connect_blocks T src c1 ca asc n1) as [[[[r0 tip] c2] log2] n2] eqn:C.
-    destruct (connect_blocks_spec T src _ _ _ _ _ _ _ _ _ Hc1 Fl C) as (Hc2 & k & fulls & Hk & Hlen & Elog & Etip & Hr1 & Hr2).
-    destruct r0 as [e|]; intros H; inversion H; subst; (split; [auto|]); right;
-      exists ca, asc, (List.length fulls), fulls; repeat split; auto.
-    + right. exists e. split; auto. apply Hr2. discriminate.
-    + left. auto.
+    rewrite Heq. unfold disconnect_blocks.
+    assert (Hdp : disc_part ca old = if v_hash ca =? v_hash old then [] else [EDisc (v_hash ca) (v_height ca)]) by reflexivity.
+    destruct (v_hash ca =? v_hash old) eqn:E;
+    match goal with |- context [connect_blocks T src ?c1 ca asc n1] =>
+      assert (Hc1 : Forall (truthful T) c1) by (auto using c_blocks_disconnected_truthful);
+      destruct (connect_blocks T src c1 ca asc n1) as [[[[r0 tip] c2] log2] n2] eqn:C;
+      destruct (connect_blocks_spec T src _ _ _ _ _ _ _ _ _ Hc1 Fl C) as (Hc2 & k & fulls & Hk & Hlen & Elog & Etip & Hr1 & Hr2)
+    end;
+    (destruct r0 as [e|]; intros H; inversion H; subst; (split; [auto|]); right;
+      exists ca, asc, (List.length fulls), fulls; rewrite Hdp; repeat split; auto;
+      first [ solve [left; auto] | right; eexists; split; [reflexivity | apply Hr2; discriminate] ]).
   - intros H. inversion H; subst. split; auto. left. split; eauto.
   - exfalso. apply Hfuel; [unfold fuel_for; lia | reflexivity].
 Qed.
@@ -177,7 +175,7 @@ Proof.
   destruct Hr as [(-> & _)|(e & -> & Hlt)]; [congruence|]. cbn in Hh.
   (* the tip reached has the old tip's hash: then it IS the old tip, it lies on the new chain, so the
      common ancestor is the old tip itself and nothing was connected *)
-  pose proof (path_firstn T _ _ _ Pa k) as P1. pose proof (path_skipn T _ _ _ Pa k) as P2.
+  pose proof (path_firstn T _ _ _ Pa k) as P1. pose proof (path_skipn _ _ _ Pa k) as P2.
   rewrite firstn_map in P1. rewrite firstn_map in P2.
   rewrite (last_map v_hash) in P1, P2. rewrite Hh in P1, P2.
   assert (Hold_new : anc T (v_hash old) (v_hash new)) by (eexists; eauto).
@@ -187,7 +185,7 @@ Proof.
   pose proof (anc_height T WF _ _ _ _ Hold_ca O1 C1) as H1.
   pose proof (path_height T WF _ _ _ P1 _ _ C1 O1) as H2.
   rewrite map_length, firstn_length in H2.
-  assert (k = 0)%nat by lia. subst k.
+  assert (Hk0 : (k = 0)%nat) by lia. rewrite Hk0 in *.
   cbn in P1. apply path_nil_inv in P1.
   unfold disc_part. rewrite P1, Z.eqb_refl. destruct fulls; [reflexivity|discriminate].
 Qed.
@@ -212,7 +210,7 @@ Proof.
   { intros Hr. destruct Out as [((e & ->) & _)|(ca & asc & k & fulls & Tn & Tca & Fa & Pa & Aa & Low & Hk & Hlen & _ & Hr')].
     - destruct Hr as [|(? & ? & ?)]; discriminate.
     - split; auto.
-      pose proof (path_skipn T _ _ _ Pa k) as P2. rewrite firstn_map, (last_map v_hash) in P2.
+      pose proof (path_skipn _ _ _ Pa k) as P2. rewrite firstn_map, (last_map v_hash) in P2.
       destruct Hr' as [(-> & ->)|(e & -> & _)]; cbn.
       + destruct (truthful_node T _ Tn) as (nn & N1 & _). eapply anc_refl; eauto.
       + eexists; eauto. }
@@ -220,12 +218,12 @@ Proof.
   - intros H. inversion H; subst. cbn. repeat split; auto; try discriminate; apply Hanc; auto.
   - destruct (v_hash tip =? v_hash (cl_tip cl)) eqn:E; cbn [negb]; intros H; inversion H; subst; cbn.
     + assert (tip = cl_tip cl) by (apply truthful_eq with T; auto; lia). subst tip.
-      repeat split; auto; try discriminate. intros _. apply Unm; [lia | discriminate].
+      repeat split; auto; try discriminate. apply Unm; [lia | discriminate].
     + repeat split; auto; try discriminate; apply Hanc; right; eauto.
   - intros H. inversion H; subst. cbn. repeat split; auto; try discriminate.
-    intros _. apply Unm; auto. discriminate.
+    apply Unm; auto. discriminate.
   - intros H. inversion H; subst. cbn. repeat split; auto; try discriminate.
-    intros _. apply Unm; auto. discriminate.
+    apply Unm; auto. discriminate.
 Qed.
 
 Lemma poll_chain_tip_spec src best_known n ct n' :
@@ -276,6 +274,23 @@ Proof.
   - intros H. inversion H; subst. tauto.
 Qed.
 
+Lemma lrun_app : forall p l1 q l2 r, lrun T p l1 q -> lrun T q l2 r -> lrun T p (l1 ++ l2) r.
+Proof. induction 1; intros; cbn; auto. econstructor; eauto. Qed.
+
+Theorem poll_n_sound src : forall k cl n cl' log n',
+  good_client T cl -> poll_n T src cl n k = (cl', log, n') ->
+  good_client T cl' /\ lrun T (pos_of (cl_tip cl)) log (pos_of (cl_tip cl')).
+Proof.
+  induction k as [|k IH]; intros cl n cl' log n' Good H; cbn [poll_n] in H.
+  - inversion H; subst. split; auto. constructor.
+  - destruct (poll_best_tip T src cl n) as [[[r cl1] log1] n1] eqn:P.
+    destruct (poll_n T src cl1 n1 k) as [[cl2 log2] n2] eqn:R.
+    inversion H; subst.
+    destruct (poll_sound _ _ _ _ _ _ _ Good P) as (G1 & Run1 & _).
+    destruct (IH _ _ _ _ _ G1 R) as (G2 & Run2).
+    split; auto. eapply lrun_app; eauto.
+Qed.
+
 (** Everything a poll notifies refers to proof-of-work-valid headers of the universe at their true
     heights. *)
 Lemma lrun_events_valid : forall p log q, lrun T p log q ->
@@ -285,7 +300,99 @@ Lemma lrun_events_valid : forall p log q, lrun T p log q ->
                    end) log.
 Proof.
   induction 1 as [|p e q l r St Run IH]; constructor; auto.
-  inversion St; subst; eauto. exists nd. repeat split; auto. lia.
+  inversion St; subst; eauto 6.
 Qed.
 
 End Poll.
+
+(** * Statements as they appear in Props/C20.v *)
+Lemma difference_correct : forall T src c fuel cur prev n,
+  wf_tree T -> Forall (truthful T) c -> genuine T cur -> truthful T prev ->
+  (Z.to_nat (th T cur + th T prev) < fuel)%nat ->
+  match fst (find_diff fuel T src c cur prev [] n) with
+  | DOutOfFuel => False
+  | DErr _ => True
+  | DOk ca asc =>
+      truthful T ca /\ truthful T cur /\ Forall (truthful T) asc /\
+      path T (v_hash ca) (v_hash cur) (map v_hash asc) /\
+      anc T (v_hash ca) (v_hash prev) /\
+      (forall d, anc T d (v_hash cur) -> anc T d (v_hash prev) -> anc T d (v_hash ca))
+  end.
+Proof.
+  intros T src c fuel cur prev n WF Hc Gc Tp Hf.
+  pose proof (find_diff_fuel T WF src c Hc fuel cur prev [] n Gc (truthful_genuine T _ Tp) Hf) as Hfuel.
+  destruct (find_diff fuel T src c cur prev [] n) as [[ca asc|e|] n1] eqn:D; cbn [fst] in *; auto.
+  destruct (find_diff_spec T WF src c Hc _ _ _ _ _ _ _ _ Gc Tp D) as (Tca & Tc & l & El & Fl & Pl & Al & Low).
+  rewrite app_nil_r in El. subst l. auto 10.
+Qed.
+
+Lemma notifications_form_chain : forall T src cl n r cl' log n',
+  wf_tree T -> good_client T cl ->
+  poll_best_tip T src cl n = (r, cl', log, n') ->
+  good_client T cl' /\
+  lrun T (pos_of (cl_tip cl)) log (pos_of (cl_tip cl')) /\
+  one_disc_then_conns log.
+Proof.
+  intros T src cl n r cl' log n' WF Good P.
+  destruct (poll_sound T WF _ _ _ _ _ _ _ Good P) as (A & B & C & _). auto.
+Qed.
+
+Lemma poll_sequence : forall T src k cl n cl' log n',
+  wf_tree T -> good_client T cl ->
+  poll_n T src cl n k = (cl', log, n') ->
+  good_client T cl' /\ lrun T (pos_of (cl_tip cl)) log (pos_of (cl_tip cl')).
+Proof. intros T src k cl n cl' log n' WF. apply poll_n_sound; auto. Qed.
+
+Lemma more_work_only : forall T src cl n r cl' log n',
+  wf_tree T -> good_client T cl ->
+  poll_best_tip T src cl n = (r, cl', log, n') ->
+  match r with
+  | Ok (Better t, moved) =>
+      v_cwork (cl_tip cl) < v_cwork t /\
+      (moved = false -> cl_tip cl' = cl_tip cl /\ log = []) /\
+      (moved = true -> truthful T t /\ anc T (v_hash (cl_tip cl')) (v_hash t))
+  | Ok (Worse t, moved) => v_cwork t <= v_cwork (cl_tip cl) /\ moved = false /\ cl' = cl /\ log = []
+  | Ok (Common, moved) => moved = false /\ cl' = cl /\ log = []
+  | Err _ => cl' = cl /\ log = []
+  end.
+Proof.
+  intros T src cl n r cl' log n' WF Good P.
+  destruct (poll_sound T WF _ _ _ _ _ _ _ Good P) as (_ & _ & _ & D). exact D.
+Qed.
+
+Lemma errors_leave_prefix : forall T src c new old n r c' log n',
+  wf_tree T -> Forall (truthful T) c -> genuine T new -> truthful T old ->
+  sync_listener T src c new old n = (r, c', log, n') ->
+  Forall (truthful T) c' /\
+  sync_outcome T new old r log /\
+  truthful T (sync_tip new old r) /\
+  lrun T (pos_of old) log (pos_of (sync_tip new old r)).
+Proof.
+  intros T src c new old n r c' log n' WF Hc Gn To S.
+  destruct (sync_listener_spec T WF _ _ _ _ _ _ _ _ _ Hc Gn To S) as (Hc' & Out).
+  destruct (sync_outcome_lrun T WF _ _ _ _ To Out) as (A & B & _). auto.
+Qed.
+
+Lemma invalid_refused : forall T,
+  wf_tree T ->
+  (forall x h w q v, validate_header T x h w q = Ok v ->
+     exists nd, T x = Some nd /\ n_pow nd = true /\ x = q /\ v_hash v = q /\ v_prev v = n_prev nd) /\
+  (forall src c v n p n', Forall (truthful T) c -> look_up_prev T src c v n = (Ok p, n') ->
+     genuine T p /\ v_hash p = v_prev v /\ v_height v = v_height p + 1 /\ v_cwork v = v_cwork p + v_bwork v) /\
+  (forall src cl n r cl' log n', good_client T cl -> poll_best_tip T src cl n = (r, cl', log, n') ->
+     Forall (fun e => match e with
+                      | EConn b h _ => exists nd, T b = Some nd /\ n_pow nd = true /\ h = n_height nd
+                      | EDisc f h => exists nd, T f = Some nd /\ h = n_height nd
+                      end) log).
+Proof.
+  intros T WF. split; [|split].
+  - intros x h w q v H. unfold validate_header in H.
+    destruct (T x) as [nd|] eqn:Hx; [|discriminate].
+    destruct (n_pow nd) eqn:Hp; [|discriminate].
+    destruct (x =? q) eqn:E; [|discriminate]. apply Z.eqb_eq in E. subst q.
+    inversion H; subst v. cbn. eauto 10.
+  - intros src c v n p n' Hc L. destruct (look_up_prev_spec T src c v n p n' Hc L) as (G & A & B & C). auto.
+  - intros src cl n r cl' log n' Good P.
+    destruct (poll_sound T WF _ _ _ _ _ _ _ Good P) as (_ & Run & _).
+    eapply lrun_events_valid; eauto.
+Qed.
